@@ -247,6 +247,65 @@ theorem c14_code_forwarded_strict_iff : CodeForwardedStrict ↔ Gen.C14.pickOneO
   | true => exact ⟨fun _ => rfl, fun _ => c14_forwarded_strict_own_cursors⟩
   | false => exact ⟨fun h => absurd h c14_forwarded_shared_cursors_refuted, fun h => by cases h⟩
 
+/-! ## several policies with the same upstreams — finding C14-policies-share-cursor
+
+"each of ITS k endpoints": the statement is per policy.  `runPolicies` interleaves the picks of any number of policies in any
+way.  Full statement: the picks of policy `p`, all over the same upstream list, are floor/ceil whatever the other policies
+pick in between — also when they list the same upstreams in the same order.  It holds iff every policy has its own cursors
+(regenerated fact `Gen.C14.policyOwnCursors`); with one cursor per ordered ready list it is false: two policies with the subset
+`[a, b]` whose requests alternate each land on one endpoint only (witness below; on the real code pods b = 100/100). -/
+
+/-- the full per-policy statement for cursors of the given kind -/
+def PolicyStrict (own : Bool) : Prop :=
+  ∀ (eps : List EP) (p : Nat) (us : List Name) (lbs : Nat → List (Key × Nat)) (evs : List (Nat × List Name)) (e : EP),
+    (∀ x, x ∈ evs → x.1 = p → x.2 = us) →
+    2 ≤ (readyList eps us).length → ((readyList eps us).map EP.id).Nodup → e ∈ readyList eps us →
+    (∀ q, lbGet (lbs q) ((readyList eps us).map EP.id) + evs.length < 2 ^ 64) →
+    strictOK (readyList eps us).length (evs.filter fun x => x.1 == p).length
+      (countPicked e.name e.gen (((runPolicies own eps lbs evs).filter fun x => x.1 == p).map (·.2))) = true
+
+/-- the statement about the code as it is now -/
+def CodePolicyStrict : Prop := PolicyStrict Gen.C14.policyOwnCursors
+
+/-- with its own cursors every policy is strict round-robin under any interleaving with other policies -/
+theorem c14_policy_strict_own_cursors : PolicyStrict true := by
+  intro eps p us lbs evs e hus hk hnd he hwrap
+  rw [runPolicies_own]
+  have hmap : (evs.filter fun x => x.1 == p).map (·.2) = List.replicate (evs.filter fun x => x.1 == p).length us := by
+    clear hwrap
+    induction evs with
+    | nil => rfl
+    | cons x rest ih =>
+      have ih' := ih (fun y hy => hus y (by simp [hy]))
+      by_cases hx : x.1 = p
+      · have hb : (x.1 == p) = true := by simpa using hx
+        simp only [List.filter_cons, hb, if_true, List.map_cons, List.length_cons, List.replicate_succ, hus x (by simp) hx]
+        rw [ih']
+      · have hb : (x.1 == p) = false := by simpa using hx
+        simp only [List.filter_cons, hb, Bool.false_eq_true, if_false]
+        exact ih'
+  rw [hmap]
+  have hlen : (evs.filter fun x => x.1 == p).length ≤ evs.length := List.length_filter_le _ _
+  exact c14_strict eps us _ (lbs p) e hk hnd he (by have := hwrap p; omega)
+
+/-- refutation by witness for one cursor per ordered ready list: two policies with the subset `[a, b]`, requests alternating:
+    both picks of policy 0 land on the same endpoint -/
+theorem c14_policy_shared_cursor_refuted : ¬ PolicyStrict false := by
+  intro h
+  let a : EP := { newEP [97] 0 false with healthy := true }
+  let b : EP := { newEP [98] 0 false with healthy := true }
+  have := h [a, b] 0 [[97], [98]] (fun _ => []) [(0, [[97], [98]]), (1, [[97], [98]]), (0, [[97], [98]]), (1, [[97], [98]])] b
+    (by decide) (by decide) (by decide) (by decide) (by intro q; decide)
+  revert this
+  decide
+
+/-- where the current code stands: the per-policy statement holds of it exactly when every policy has its own cursors -/
+theorem c14_code_policy_strict_iff : CodePolicyStrict ↔ Gen.C14.policyOwnCursors = true := by
+  unfold CodePolicyStrict
+  cases Gen.C14.policyOwnCursors with
+  | true => exact ⟨fun _ => rfl, fun _ => c14_policy_strict_own_cursors⟩
+  | false => exact ⟨fun h => absurd h c14_policy_shared_cursor_refuted, fun h => by cases h⟩
+
 /-- **the full statement holds of the current tree** (the regenerated fact says: `PickOne` keeps its own cursors) -/
 theorem c14_forwarded_strict : CodeForwardedStrict := c14_code_forwarded_strict_iff.2 (by decide)
 
